@@ -336,7 +336,7 @@ func quiet() {
 
 func gen(c *core.Ctx) error {
 	quiet()
-	c.Rule("every exchange shape (plain frames, AES frames, typed messages, secret+file, handshakes: no-auth clear/AES, CLAIMTOBE, FS, FS|CLAIMTOBE, TOKEN, resumed session; each followed by a request/reply) is run on the real code on both roles over an instrumented connection; a reference run counts the connection-level calls N of the instrumented side; then for EVERY k<N call k is made to stall for ever and the context is cancelled (synchronously, from a timer, by deadline; with plain contexts and with WithCancelCause / WithTimeoutCause contexts carrying a custom cause - the error must still be ctx.Err(); stall inside a channel wait or inside a real net.Pipe call); also: context cancelled beforehand, cancelled right after call k completed, cancelled after completion, context.Background() undisturbed and with the connection failing from call k. non-trivial = a during/between case (stall or cancellation in the middle of the exchange); distinct by (shape, role, timing, k, variant)")
+	c.Rule("every exchange shape (plain frames, AES frames, AES frames and a CLAIMTOBE handshake on streams whose connection was installed with SetConnection after construction, typed messages, secret+file, handshakes: no-auth clear/AES, CLAIMTOBE, FS, FS|CLAIMTOBE, TOKEN, resumed session; each followed by a request/reply) is run on the real code on both roles over an instrumented connection; a reference run counts the connection-level calls N of the instrumented side; then for EVERY k<N call k is made to stall for ever and the context is cancelled (synchronously, from a timer, by deadline; with plain contexts and with WithCancelCause / WithTimeoutCause contexts carrying a custom cause - the error must still be ctx.Err(); stall inside a channel wait or inside a real net.Pipe call); also: context cancelled beforehand, cancelled right after call k completed, cancelled after completion, context.Background() undisturbed and with the connection failing from call k. non-trivial = a during/between case (stall or cancellation in the middle of the exchange); distinct by (shape, role, timing, k, variant)")
 	c.Assume("closing a net.Conn makes a blocked Read/Write return (exercised on net.Pipe, a TCP loopback pair and the harness connection, not provable in the model)")
 	c.Assume("promptness is measured against a 2 s bound, not proved")
 	assumptionProbe(c)
